@@ -22,7 +22,7 @@ DIMS = [3, 5, 8, 63, 64, 65, 70, 128, 130]
 def cases(tier, seed):
     rng = random.Random('C12/%s' % seed)
     out = []
-    n = 20 if tier == 'quick' else 220
+    n = 45 if tier == 'quick' else 270
     for i in range(n):
         # dimensions, z classes and footer conventions are cycled deterministically
         nI, nX = DIMS[i % len(DIMS)], DIMS[(4 * i + 3) % len(DIMS)]
